@@ -382,3 +382,65 @@ def model_check_and_generate(prop, ctx):
     cov2, traces, notes2 = simulate_and_replay(ctx, prop)
     cov.update(cov2)
     return cov, traces, notes + notes2
+
+
+# ------------------------------------------------------------------ ServerClients.tla (C13 / C12 server side)
+
+def server_clients(ctx):
+    """Exhaustive TLC run of the client-facing server model, then client scripts derived from TLC-simulated behaviours.
+    Returns (coverage, scenarios)."""
+    spec = os.path.join(SPEC_DIR, 'ServerClients.tla')
+    ids = '{"a", "b"}' if ctx.quick else '{"a", "b", "c"}'
+    invs = ['NoCrash', 'RepliesConsistent', 'TablesConsistent', 'NoCancelledResidue', 'WaitingIsLive']
+    cfg = os.path.join(ctx.scratch, 'SC_exh.cfg')
+    with open(cfg, 'w') as f:
+        f.write('SPECIFICATION Spec\nCONSTANTS NC = 2\n IDS = %s\n Record = FALSE\n%sCHECK_DEADLOCK FALSE\n' % (
+            ids, ''.join('INVARIANT %s\n' % i for i in invs)))
+    r = common.tlc(spec, cfg, scratch=ctx.scratch, timeout=1500, workers=8, coverage=ctx.quick)
+    if not r.ok:
+        m = re.search(r'Invariant (\w+) is violated', r.out)
+        raise common.MachineryError('ServerClients.tla: %s' % ('invariant %s violated on the model of the current code' % m.group(1) if m else r.error[:400]))
+    if r.coverage:
+        acts = {k: v for k, v in r.coverage.items() if k.startswith('Next@')}
+        if len(acts) < 8 or any(v == 0 for v in acts.values()):
+            raise common.MachineryError('ServerClients.tla: action never taken: %s' % acts)
+    cov = {'l2_states': r.distinct, 'l2_transitions': r.states, 'l2_server_model': [r.distinct, r.states, r.depth]}
+    cfg2 = os.path.join(ctx.scratch, 'SC_sim.cfg')
+    with open(cfg2, 'w') as f:
+        f.write('SPECIFICATION Spec\nCONSTANTS NC = 2\n IDS = {"a", "b", "c"}\n Record = TRUE\nINVARIANT Dump\nCHECK_DEADLOCK FALSE\n')
+    num = 150 if ctx.quick else 2000
+    r2 = common.tlc(spec, cfg2, scratch=ctx.scratch, timeout=600, workers=1, simulate='num=%d' % num, depth=9, seed=ctx.seed + 3)
+    longest = {}
+    for v in r2.prints:
+        if v and v[0] == 'BEHAVIOUR':
+            try:
+                h = json.loads(v[1])
+            except Exception:
+                continue
+            key = json.dumps(h[:6])
+            if key not in longest or len(h) > len(longest[key]):
+                longest[key] = h
+    scs = []
+    for n, h in enumerate(longest.values()):
+        failing = {e['i'] for e in h if e['a'] == 'ErrorIn'}
+        scripts = {1: [], 2: []}
+        for e in h:
+            c = e['c']
+            if e['a'] == 'Submit':
+                scripts[c].append(['submit', e['i'], 'bad' if e['i'] in failing else 'root'])
+            elif e['a'] == 'Request':
+                scripts[c].append(['result', e['i']])
+            elif e['a'] == 'Status':
+                scripts[c].append(['status', e['i']])
+            elif e['a'] == 'Cancel':
+                scripts[c].append(['cancel', e['i']])
+            elif e['a'] == 'Disconnect':
+                scripts[c].append(['close'])
+        clients = [s for s in (scripts[1], scripts[2]) if s]
+        if not clients:
+            continue
+        progs = {'root': [['submit', 'x', 'leaf'], ['await', 'x'], ['ret']], 'bad': [['submit', 'x', 'leaf'], ['await', 'x'], ['raise']], 'leaf': [['ret']]}
+        scs.append({'topo': ['detached', [[1], [2], [1, 1]][n % 3]], 'progs': progs, 'clients': clients,
+                    'sched': ['random', ctx.seed * 7 + n], 'lines': False, 'crash': None, 'probe': True, 'from_tlc': True})
+    cov['l2_behaviours_as_client_scripts'] = len(scs)
+    return cov, scs
